@@ -9,6 +9,7 @@ import shutil
 import sys
 import time
 import traceback
+from itertools import zip_longest
 
 VERIF = os.path.dirname(os.path.dirname(os.path.abspath(__file__)))
 sys.path.insert(0, VERIF)
@@ -93,8 +94,9 @@ def worker_env(wid):
 
 
 def _worker(args):
-    (prop, subname, seed, nex, tier, wid, arts, known, deadline, cases) = args
+    (prop, subname, seed, nex, tier, wid, arts, known, max_wall, cases) = args
     t0 = time.time()
+    deadline = t0 + max_wall          # counted from the moment this worker starts, not from the moment it was queued
     res = dict(sub=subname, wid=wid, evaluations=0, nontrivial=[], classes={}, metrics={}, samples=[], failure=None,
                error=None, inconclusive=False, known_hits={}, discards=0, seed=seed)
     scratch = None
@@ -467,7 +469,7 @@ def main(argv=None):
         nw = s.workers or per_sub
         nex_total = max(1, int(s.n[tier] * a.scale))
         nw = max(1, min(nw, nex_total))
-        dl = time.time() + s.max_wall[tier]
+        dl = s.max_wall[tier]
         enum_cases = s.enum(tier) if s.enum else None
         if enum_cases is not None:
             nw = max(1, min(total_workers, len(enum_cases)))
@@ -481,6 +483,12 @@ def main(argv=None):
             wseed = int(hashlib.sha256(("%d/%s/%s/%d" % (seed, prop, s.name, i)).encode()).hexdigest()[:12], 16)
             jobs.append((prop, s.name, wseed, nex, tier, wid % 48, arts, known, dl, None))
             wid += 1
+    # interleave the sub-checks' workers (round robin), so that a sub-check with many long jobs (fuzz campaigns) cannot
+    # occupy every slot while the others wait
+    by_sub = {}
+    for j in jobs:
+        by_sub.setdefault(j[1], []).append(j)
+    jobs = [j for grp in zip_longest(*by_sub.values()) for j in grp if j is not None]
     raw = run_jobs(_worker, jobs, min(total_workers, max(1, len(jobs))), ctx,
                    hard_timeout=max(s.max_wall[tier] for s in subs) + 900)
     results = []
